@@ -6,6 +6,7 @@ import NemoVerif.Models.Dispatch
 import NemoVerif.Models.FlowShape
 import NemoVerif.Models.Pipeline
 import NemoVerif.Lemmas.Pipeline
+import NemoVerif.Lemmas.PipelineV2
 import NemoVerif.Lemmas.PipelineTie
 import NemoVerif.Theorems.C01
 import NemoVerif.Drive.C01
